@@ -68,10 +68,10 @@ def log_io(it, prim, err, path):
 
 
 def raise_oserror(it, prim, err, path, node):
-    """raise the OSError for errno term `err` (known nonzero on this path)"""
+    """raise the OSError for errno term `err` (known nonzero on this path).  The concrete subclass
+    (FileNotFoundError, PermissionError, ...) is a function of errno and is decided where an
+    `except` clause asks for it (Interp.handler_matches)"""
     log_io(it, prim, err, path)
-    if it.ctx.branch(err == _errno.ENOENT, prim + '-enoent'):
-        raise PyRaise(VExc('FileNotFoundError', [], {'errno': VInt(err)}, line=getattr(node, 'lineno', None)))
     raise PyRaise(VExc('OSError', [], {'errno': VInt(err)}, line=getattr(node, 'lineno', None)))
 
 
